@@ -3527,8 +3527,12 @@ class Parameters:
             if name == 'name' and onlychanged and _is_auto_name(self_.cls.__name__, value):
                 continue
             # An instance named exactly like its class was named explicitly
-            # (a new instance would get an auto-generated name instead)
-            explicit_name = name == 'name' and self_.self is not None and value is not None
+            # (a new instance would get an auto-generated name instead) -
+            # unless the class gives `name` a default of its own, or names
+            # its instances after itself (ParameterizedFunction)
+            explicit_name = (name == 'name' and self_.self is not None
+                             and value == val.default == self_.cls.__name__
+                             and not isinstance(self_.self, ParameterizedFunction))
             if not onlychanged or explicit_name or not Comparator.is_equal(value, val.default):
                 vals.append((name, value))
 
